@@ -597,6 +597,11 @@ def _make_plan(case, raw, rng, wd, *, full=False, init_req=None, container_size=
         elif name in ("fcb", "fcb_xspi"):
             if want(0.75):
                 data, how = _build_fcb(fam, rev, mem, rng)
+                if how == "own" and rng.random() < 0.2:
+                    # the swapped byte order (tag 'CFBF') is a storage form SPSDK recognises: the bytes supplied must
+                    # still come back as supplied
+                    data = b"".join(data[i:i + 2][::-1] for i in range(0, len(data), 2))
+                    how = "own-swapped"
                 meta[name] = f"fcb:{how}"
         elif name == "xmcd":
             if want(0.7):
